@@ -80,6 +80,7 @@ Case(f, R, k) ==
          off    |-> IF a.err = "" THEN Len(JoinLines(SubSeq(LinesOf(f.items), 1, t - 1), 1, Eol(f), TRUE))
                                       + Len(Split(LinesOf(f.items)[t]).pre)
                     ELSE 0,
+         tline  |-> t - 1,                      \* 0-based index of the target line (-1: not found)
          nrules |-> Len(SelectSeq(f.items, LAMBDA it : it.k = "rule")),
          crlf   |-> f.crlf]
 
